@@ -103,6 +103,18 @@ claim("C08", "model_checking",
       "TLA+ static-semantics spec (Access.tla over Expr.tla) evaluated by TLC against declared sets and "
       "accesses recorded from the real interpreter; statements come from TLC-generated ProgGen behaviours")
 
+claim("C01", "model_checking",
+      "every ProgGen behaviour up to the depth bound over a typed call alphabet (plus simulated and sampled "
+      "longer programs, several phases, failures, switches, raises) is run through the real interpreter and "
+      "the real generated Python class for sampled initial states and run bounds; TLC validates both "
+      "recorded event traces (events, persistent state after every step, next phase, escaping error) "
+      "against the reference semantics of Stepper.tla, which executes the builder calls in written order",
+      "trusted: recorder normalisation of values (integral floats = ints), the fixed function table shared "
+      "by harness/stepper.py and Expr.tla; integer-valued alias-free fragment; out-of-fragment cases are "
+      "counted and not judged",
+      "trace validation of two real back ends against an executable TLA+ reference semantics "
+      "(Stepper.tla over Expr.tla) with TLC; programs are TLC-generated behaviours of ProgGen.tla")
+
 NOT_YET = "check not built yet (work in progress, see DESIGN.md section 11)"
 NOT_APPLICABLE = {}
 
